@@ -58,12 +58,11 @@ def mid_part(ck):
     from checks import tile_common as tc
     thorough = ck.tier == "thorough"
     cases, meta = [], {}
-    # EDP only (the metric whose optimum needs both pruning objectives) unless C01_MID_ALL=1: the three-metric,
-    # larger-family variant costs ~30 min and was not run to completion on the unchanged tree before the deadline,
-    # so both registered tiers use the family that was (seeds 1-3)
+    # quick tier: EDP only (the metric whose optimum needs both pruning objectives), 3 worlds; thorough tier (or
+    # C01_MID_ALL=1): all three metrics, 6 worlds each (18 cases, 22 812 assignments, ~17 min on the unchanged tree)
     import os
-    wide = bool(os.environ.get("C01_MID_ALL"))
-    thorough = thorough and wide
+    wide = thorough or bool(os.environ.get("C01_MID_ALL"))
+    thorough = wide
     for mi, metric in enumerate(mc.METRICS):
         if not wide and metric != "ENERGY_DELAY_PRODUCT":
             continue
